@@ -181,10 +181,11 @@ def build(case):
     out = {"traces": [], "layout": None, "stats": {"built": 0, "refused": 0, "tamper_walks": 0, "tamper_obs": 0}, "case": case}
     hist = []  # layout history events
     cfg = to_config(case, work)
-    try:
-        check_config(cfg, AHABImage.get_validation_schemas(case["family"], case["revision"]))
-    except SPSDKError as e:
-        raise Machinery(f"generated configuration of case {case['id']} is refused by SPSDK's own schema: {str(e)[:300]}") from e
+    if case.get("check_schema"):  # self-check of the generator on a sample (compiling the schema costs more than the build)
+        try:
+            check_config(cfg, AHABImage.get_validation_schemas(case["family"], case["revision"]))
+        except SPSDKError as e:
+            raise Machinery(f"generated configuration of case {case['id']} is refused by SPSDK's own schema: {str(e)[:300]}") from e
     try:
         ahab = AHABImage.load_from_config(cfg)
         hist.append({"ev": "Load", "p": projection(ahab)})
@@ -398,7 +399,8 @@ def fam_for(fams, cver, k):
 
 
 def plain_image(r, fam, ln, **over):
-    core = r.choice(fam["cores"])
+    cores = [c for c in fam["cores"] if any(t[0] != "ele" for t in c[2])] or fam["cores"]   # (ELE images follow a 4-byte placement rule)
+    core = r.choice(cores)
     typ = r.choice([t for t in core[2] if t[0] != "ele"] or core[2])
     im = {"len": ln, "ht": 0, "enc": False, "off": 0, "type": [typ[0], typ[1]], "core": [core[0], core[1]], "boot": 0, "meta": [0, 0, 0],
           "load": 0x1000, "entry": 0x1000, "isa": None, "gap": 0}
@@ -467,7 +469,8 @@ def tamper_cases(fams, tier, base):
     for k, (cver, kt, pre, enc) in enumerate(specs):
         row = {"cver": cver, "pre": pre, "srkSet": 2, "used": (k + 1) % 4, "revoke": 0, "kt": kt, "nImg": 2, "enc": enc, "ext": False}
         case = auth_case(row, fams, k, base + k)
-        case["cont"][-1]["img"][1]["isa"] = 0x300  # a size-extended plain image next to the encrypted one
+        if k % 2 == 1:
+            case["cont"][-1]["img"][1]["isa"] = 0x300  # every other host carries a size-extended plain image
         case["memory"] = "standard"
         case.update(tamper=n_per, tamper_walks=1 if tier == "quick" else 4, origin="tamper")
         out.append(case)
@@ -521,6 +524,7 @@ def decide(v, traces, cases_by_id, stats):
             stats["tamper_classes"].add(t["fcls"])
             continue
         if r is None:
+            stats.setdefault("consumed_events", set()).update(e["ev"] for e in t["ev"])
             if t["kind"] == "export" and t["ev"][-1]["ev"] in ("SpsdkRoundTrip", "Accept"):
                 stats["accepted"] += 1
                 v.nontrivial(json.dumps(t["exp"], sort_keys=True))
@@ -676,13 +680,14 @@ def run(tier):
         cases.append(auth_case(row, fams, k, len(cases)))
     for k, row in enumerate(lay_rows):
         cases.append(layout_case(row, fams, k, len(cases)))
-    n_random = 100 if quick else 2500
+    n_random = 100 if quick else 1500
     for k in range(n_random):
         cases.append(random_case(r, fams, len(cases), history=(k % 4 == 0), origin="random"))
     tc = tamper_cases(fams, tier, len(cases))
     cases += tc
-    for c in cases:
+    for k, c in enumerate(cases):
         c["id"] = str(c["id"])
+        c["check_schema"] = k % 8 == 0 or c.get("origin") == "tamper"
     cases_by_id = {c["id"]: c for c in cases}
     say(f"[C06] {len(cases)} cases: {len(auth_rows)} from AhabRomMC, {len(lay_rows)} from AhabLayoutMC, {n_random} seeded random, {len(tc)} tamper hosts")
 
@@ -750,8 +755,14 @@ def run(tier):
     missing = [c for c in must_reject if not any(f == c or f.startswith(c + ".") for f in stats["tamper_classes"])]
     if missing:
         raise Machinery(f"region classes of the model without a real tampered walk: {missing} (executed: {sorted(stats['tamper_classes'])})")
-    if stats["accepted"] < len(cases) // 3:
-        raise Machinery(f"only {stats['accepted']} of {len(cases)} cases produced an accepted export")
+    if not v.violations:
+        if stats["accepted"] < len(cases) // 3:
+            raise Machinery(f"only {stats['accepted']} of {len(cases)} cases produced an accepted export")
+        need = {"ContainerHeader", "ImageEntry", "SignatureBlock", "SrkTable", "VerifySignature", "Blob", "ContainerEnd", "Accept", "SpsdkRoundTrip",
+                "ExportRefused", "InvalidExported", "Resume", "Tamper", "SpsdkTamperVerdict"}
+        vac = need - stats.get("consumed_events", set())
+        if vac:
+            raise Machinery(f"actions of AhabRomTrace that no accepted trace exercised: {sorted(vac)}")
 
     for o in outs:
         for t in o["traces"]:
@@ -764,10 +775,11 @@ def run(tier):
     if obs:
         v.sample(obs)
     v.extra.update(tamper_rejected=stats["tamper_rejected"], tamper_classes=sorted(stats["tamper_classes"]), tamper_reported_by_spsdk=stats["tamper_reported"],
-                   tamper_observed=agg.get("tamper_obs", 0), invalid_exports_reported=stats.get("invalid_reported", 0), skipped_resource=agg.get("skipped_resource", 0), exports_accepted=stats["accepted"],
+                   tamper_observed=agg.get("tamper_obs", 0), trace_actions_exercised=sorted(stats.get("consumed_events", set())), invalid_exports_reported=stats.get("invalid_reported", 0), skipped_resource=agg.get("skipped_resource", 0), exports_accepted=stats["accepted"],
                    exports_refused_as_required=stats["refused_ok"], layout_histories=stats["layout_ok"], ispec_conformant=stats["ispec_conformant"],
                    drift_examples=stats["drift_examples"], families=[f"{f['family']}/{f['revision']}" for f in fams],
-                   trusted_base="hashlib (SHA-2, SM3 via OpenSSL), cryptography: ECDSA verify, RSA-PSS verify, AES-CBC decrypt - called directly",
+                   trusted_base=["hashlib (SHA-256/384/512, SM3 via OpenSSL)", "cryptography: ECDSA verify, RSA-PSS / PKCS#1 v1.5 verify, AES-CBC decrypt, "
+                                 "PEM public key loading - called directly, never through spsdk.crypto", "struct", "TLC 2 + CommunityModules (Json, IOUtils)"],
                    checker_cmd="TLC AhabRomMC, AhabLayoutMC (lemmas + case emission); TLC AhabRomTrace, AhabLayoutTrace (decide every trace)")
     v.cov["rule"] = (
         f"cases = every untampered shape of AhabRomMC (container version x unsigned pre-container x srk set x all 64 used_srk_id/srk_revoke_mask pairs x "
